@@ -13,31 +13,43 @@ from harness.lib.core import JOBS, VERIF, source_sha
 from harness.props import c04lib as L
 
 LEVEL = 'proof'
-IMPORTS = 'C04.Cst C04.Lcs C04.Model C04.Check'
+IMPORTS = 'C04.Cst C04.Lcs C04.Model C04.ModelOmega C04.Check'
 
 TAGS = {
     1: 'regenerated $THETA record trees differ from the model',
     2: 'parse of lark-produced $THETA trees differs from the model',
     4: 're-read of the regenerated text differs from what the model predicts',
     5: 'CPython float printing contract violated on a tabulated value',
+    6: 'the reference recogniser refuses a regenerated text that lark accepts, inside the guard',
     11: 're-reading the regenerated code raises',
     12: 're-read theta values/bounds/fix differ from the in-memory model',
     13: 'an unchanged value changed its spelling',
     14: 'the edit itself crashes inside update_source',
     15: 're-read theta names differ from the in-memory model',
+    21: 'regenerated diagonal $OMEGA/$SIGMA record tree differs from the model',
+    22: 'OmegaRecord.parse of a lark-produced diagonal record differs from the model',
+    23: 'regenerated BLOCK record tree differs from the model (given the converted values)',
+    24: 'the regenerated diagonal record tree does not mean what pharmpy reads from its text',
+    31: 're-reading the regenerated code raises ($OMEGA/$SIGMA edit)',
+    32: 're-read OMEGA/SIGMA values or FIX differ from the in-memory model',
+    33: 'an unchanged OMEGA/SIGMA value changed its spelling',
+    34: 'the $OMEGA/$SIGMA edit itself crashes inside update_source',
+    35: 're-read OMEGA/SIGMA names or distribution structure differ from the in-memory model',
 }
-CORR = (1, 2, 4, 5)
-ORACLE = (11, 12, 13, 14, 15)
+CORR = (1, 2, 4, 5, 6, 21, 22, 23, 24)
+ORACLE = (11, 12, 13, 14, 15, 31, 32, 33, 34, 35)
 GUARD_NAMES = {201: 'g_plain_layout', 202: 'g_xn_uniform', 203: 'g_xn_nofix', 204: 'g_spaced', 205: 'g_repr',
                206: 'g_count', 207: 'g_rm_single', 208: 'g_removed_unnamed', 209: 'g_names', 210: 'g_bounds_canonical',
+               221: 'g_plain_item', 222: 'g_oxn', 223: 'g_sd_exact', 224: 'g_orepr', 226: 'g_ocount', 227: 'g_block_scale_exact',
                299: 'plan_error'}
 # guard conjunct -> finding id (conjuncts without an entry describe unrepresentable inputs, not defects)
 FINDING_OF = {202: 'C04-THETA-XN-EDIT', 203: 'C04-THETA-XN-FIX', 204: 'C04-THETA-GLUED-RPAR',
               201: 'C04-THETA-EXOTIC-LAYOUT', 207: 'C04-THETA-REMOVE-XN', 208: 'C04-THETA-REMOVE-COMMENT',
-              209: 'C04-THETA-NAMES-SHIFT', 210: 'C04-THETA-BOUND-RESPELL'}
+              209: 'C04-THETA-NAMES-SHIFT', 210: 'C04-THETA-BOUND-RESPELL', 222: 'C04-OMEGA-XN-SPLIT', 223: 'C04-OMEGA-SCALE-INEXACT', 227: 'C04-OMEGA-SCALE-INEXACT'}
 # which false guard conjuncts can explain which oracle tag
 EXPLAINS = {11: (201, 202, 203, 204, 205, 207, 208), 12: (201, 202, 203, 205, 207), 14: (201, 202, 207, 206),
-            15: (208, 209, 207, 202), 13: (210, 201, 202, 207)}
+            15: (208, 209, 207, 202), 13: (210, 201, 202, 207),
+            31: (221, 222, 224), 32: (221, 222, 223, 224, 227), 33: (221, 222, 223, 227), 34: (221, 226), 35: (221, 222)}
 
 
 # ------------------------------------------------------------------ worker side
@@ -50,7 +62,7 @@ def run_theta_spec(spec):
     if po is None or not pinfo.get('ok'):
         # the layout itself is refused: only the parse correspondence can be checked
         if po is not None:
-            term = ("(mkTS " + ft0.term() + " [] [] [] [] (ROk []) " + "[" + po + "] None)")
+            term = ("(CTheta (mkTS " + ft0.term() + " [] [] [] [] (ROk []) " + "[" + po + "] None))")
             out.append((term, {'edit': 'parse-only', 'parse_error': pinfo.get('error')}))
         else:
             out.append((None, {'edit': 'lark-reject', 'parse_error': pinfo.get('pre_error')}))
@@ -60,11 +72,75 @@ def run_theta_spec(spec):
     for edit in spec['edits']:
         term, info, edited = L.observe_theta_step(cur, edit, first)
         first = None
-        out.append((term, info))
+        out.append(('(CTheta ' + term + ')', info))
         if edited is None or not info.get('consistent'):
             break
         cur = edited
     return out
+
+
+def run_rv_spec(spec):
+    from pharmpy.modeling import read_model_from_string
+    out = []
+    code = L.rv_model_code(spec['omegas'], spec['sigmas'], spec['ne'], spec['ns'])
+    try:
+        cur = read_model_from_string(code)
+    except Exception as e:
+        return [(None, {'edit': 'rv-layout-reject', 'parse_error': type(e).__name__ + ': ' + str(e)[:80]})]
+    if not L.layout_read_exactly(cur):
+        return [(None, {'edit': 'rv-layout-repaired-on-read'})]
+    cs = cur.internals.control_stream
+    fresh = list(cs.get_records('OMEGA')) + list(cs.get_records('SIGMA'))
+    for edit in spec['edits']:
+        term, info, edited = L.observe_rv_step(cur, edit, fresh)
+        fresh = []
+        out.append(('(COmega ' + term + ')', info))
+        if edited is None or not info.get('consistent'):
+            break
+        cur = edited
+    return out
+
+
+def gen_and_run_rv(task):
+    from pharmpy.modeling import read_model_from_string
+    subseed, count = task
+    rng = random.Random(subseed)
+    res = []
+    for _ in range(count):
+        om, ne = L.gen_rv_layout(rng, 'OMEGA')
+        si, ns = L.gen_rv_layout(rng, 'SIGMA')
+        spec = {'kind': 'rv', 'omegas': om, 'sigmas': si, 'ne': ne, 'ns': ns, 'edits': []}
+        try:
+            code = L.rv_model_code(om, si, ne, ns)
+            try:
+                cur = read_model_from_string(code)
+            except Exception as e:
+                res.append((spec, [(None, {'edit': 'rv-layout-reject',
+                                           'parse_error': type(e).__name__ + ': ' + str(e)[:80]})]))
+                continue
+            if not L.layout_read_exactly(cur):
+                res.append((spec, [(None, {'edit': 'rv-layout-repaired-on-read'})]))
+                continue
+            cs = cur.internals.control_stream
+            fresh = list(cs.get_records('OMEGA')) + list(cs.get_records('SIGMA'))
+            steps = []
+            for step in range(rng.choice([1, 2, 3])):
+                edit = L.gen_rv_edit(rng, cur)
+                if edit is None:
+                    break
+                spec['edits'].append(edit)
+                term, info, edited = L.observe_rv_step(cur, edit, fresh)
+                fresh = []
+                steps.append(('(COmega ' + term + ')', info))
+                if edited is None or not info.get('consistent'):
+                    break
+                cur = edited
+            res.append((spec, steps))
+        except L.UnknownRule as e:
+            res.append((spec, [(None, {'edit': 'unknown-rule', 'rule': str(e)})]))
+        except Exception:
+            res.append((spec, [(None, {'edit': 'harness-error', 'error': traceback.format_exc()[-800:]})]))
+    return res
 
 
 def gen_and_run(task):
@@ -92,7 +168,7 @@ def gen_and_run(task):
                 spec['edits'].append(edit)
                 term, info, edited = L.observe_theta_step(cur, edit, first)
                 first = None
-                steps.append((term, info))
+                steps.append(('(CTheta ' + term + ')', info))
                 if edited is None or not info.get('consistent'):
                     break
                 cur = edited
@@ -108,6 +184,8 @@ def gen_and_run(task):
 
 def run_spec_task(spec):
     try:
+        if spec.get('kind') == 'rv':
+            return (spec, run_rv_spec(spec))
         return (spec, run_theta_spec(spec))
     except Exception:
         return (spec, [(None, {'edit': 'harness-error', 'error': traceback.format_exc()[-800:]})])
@@ -116,12 +194,19 @@ def run_spec_task(spec):
 # ------------------------------------------------------------------ classification
 def classify(ctx, spec, step_no, tags, info):
     tags = set(tags)
+    if 6 in tags:
+        if any(t >= 200 for t in tags):       # outside the guard the recogniser may be conservative
+            ctx.coverage['recogniser_conservative_outside_guard'] = \
+                ctx.coverage.get('recogniser_conservative_outside_guard', 0) + 1
+            tags.discard(6)
     corr = sorted(t for t in tags if t in CORR)
     oracle = sorted(t for t in tags if t in ORACLE)
     guards = sorted(t for t in tags if t >= 200)
     status = 'ok'
     for t in oracle:
         why = [g for g in guards if g in EXPLAINS.get(t, ())]
+        if t == 32 and info.get('max_rel_dev') is not None and not (info['max_rel_dev'] < 1e-12):
+            why = [g for g in why if g not in (223, 227)]      # more than float noise: not explained by the scale
         fids = [FINDING_OF[g] for g in why if g in FINDING_OF]
         unrep = [g for g in why if g not in FINDING_OF]
         open_f = [f for f in fids if ctx.open_finding(f)]
@@ -135,8 +220,8 @@ def classify(ctx, spec, step_no, tags, info):
             ctx.coverage['unrepresentable_hits'][GUARD_NAMES[unrep[0]]] += 1
             status = 'unrepresentable' if status == 'ok' else status
         else:
-            ctx.violation(TAGS[t], {'spec': {**spec, 'edits': spec['edits'][:step_no + 1]}, 'tags': sorted(tags),
-                                    'tag_meaning': TAGS[t], 'guards_false': [GUARD_NAMES.get(g, g) for g in guards],
+            ctx.violation(TAGS.get(t, str(t)), {'spec': {**spec, 'edits': spec['edits'][:step_no + 1]}, 'tags': sorted(tags),
+                                    'tag_meaning': TAGS.get(t, str(t)), 'guards_false': [GUARD_NAMES.get(g, g) for g in guards],
                                     'info': {k: v for k, v in info.items() if k != 'model'}})
             status = 'violation'
     if corr and status != 'violation':
@@ -160,7 +245,7 @@ def evaluate(ctx, results, label):
                 continue
             terms.append('(' + term + ')')
             index.append((spec, k, info))
-    verdicts = ctx.run_cases(label, IMPORTS, 'tstep', terms, 'tstep_verdict', shard=40) if terms else []
+    verdicts = ctx.run_cases(label, IMPORTS, 'case', terms, 'verdict', shard=40) if terms else []
     out = []
     for (spec, k, info), tags in zip(index, verdicts):
         st = classify(ctx, spec, k, tags, info)
@@ -189,7 +274,7 @@ def evaluate_quiet(ctx, results, label):
             if term is not None:
                 terms.append('(' + term + ')')
                 index.append((spec, k, info))
-    verdicts = ctx.run_cases(label, IMPORTS, 'tstep', terms, 'tstep_verdict', shard=40) if terms else []
+    verdicts = ctx.run_cases(label, IMPORTS, 'case', terms, 'verdict', shard=40) if terms else []
     return [(s, k, i, t) for (s, k, i), t in zip(index, verdicts)], None
 
 
@@ -216,37 +301,51 @@ def run(ctx):
         'src/pharmpy/model/external/nonmem/records/grammars/omega_record.lark')
     finding_probes(ctx)
     reg = sorted((VERIF / 'regress' / 'C04').glob('*.json'))
-    nlay = 120 if ctx.tier == 'quick' else 2500
+    nlay = 120 if ctx.tier == 'quick' else 1200
+    nrv = 72 if ctx.tier == 'quick' else 450
     per = 6
     tasks = [(ctx.rng.getrandbits(48), per) for _ in range(nlay // per)]
+    rvtasks = [(ctx.rng.getrandbits(48), 3) for _ in range(nrv // 3)]
     results = []
     with ProcessPoolExecutor(max_workers=JOBS) as ex:
-        for r in ex.map(run_spec_task, [json.loads(p.read_text()) for p in reg]):
-            results.append(r)
-        for chunk in ex.map(gen_and_run, tasks):
+        f_reg = ex.map(run_spec_task, [json.loads(p.read_text()) for p in reg])
+        f_rv = ex.map(gen_and_run_rv, rvtasks)
+        f_th = ex.map(gen_and_run, tasks)
+        results += list(f_reg)
+        for chunk in f_th:
             results += chunk
-    rows, stats = evaluate(ctx, results, 'theta')
+        for chunk in f_rv:
+            results += chunk
+    rows, stats = evaluate(ctx, results, 'cases')
     ctx.coverage['evaluations'] = len(rows)
-    ctx.coverage['distinct_nontrivial'] = len({json.dumps([s['layout'], s['edits'][:k + 1]]) for s, k, i, t, st in rows
-                                               if i.get('edit') != 'parse-only'})
-    ctx.coverage['rule'] = ('theta layouts generated from the record grammar (1-3 records, 1-4 thetas each, all five forms, '
-                            'FIX positions, xn, name comments, numeric spellings) x 1-3 edits over set init/lower/upper/fix/'
-                            'unfix/fix-to/unconstrain/multi/add/remove; non-trivial = a step with an edit; distinct by layout '
-                            'text + edit prefix')
+
+    def key(s, k):
+        return json.dumps([s.get('layout'), s.get('omegas'), s.get('sigmas'), s['edits'][:k + 1]])
+    ctx.coverage['distinct_nontrivial'] = len({key(s, k) for s, k, i, t, st in rows if i.get('edit') != 'parse-only'})
+    ctx.coverage['rule'] = ('$THETA layouts generated from the record grammar (1-3 records, 1-4 thetas each, all forms, FIX '
+                            'positions, xn, name comments, numeric spellings) x 1-3 edits over set init/lower/upper/fix/unfix/'
+                            'fix-to/unconstrain/multi/add/remove; $OMEGA/$SIGMA layouts (DIAGONAL(n), items with FIX/SD/VAR in any '
+                            'position, (..)xn, BLOCK(n) with FIX/SD/CORR/CHOLESKY/VAR/COV, BLOCK SAME, name comments) x 1-3 edits '
+                            'over set init / fix / unfix / multi; non-trivial = a step with an edit; distinct by layout text + '
+                            'edit prefix')
     ctx.coverage['case_status'] = stats
-    hist = {}
-    gh = {}
+    hist, gh = {}, {}
     for s, k, i, t, st in rows:
-        hist[i.get('edit')] = hist.get(i.get('edit'), 0) + 1
+        lab = s.get('kind', 'theta') + ':' + str(i.get('edit'))
+        hist[lab] = hist.get(lab, 0) + 1
         for g in t:
             if g >= 200:
                 gh[GUARD_NAMES.get(g, g)] = gh.get(GUARD_NAMES.get(g, g), 0) + 1
     ctx.coverage['input_distribution'] = {
         'edit_ops': hist, 'guard_conjunct_false': gh,
         'guard_true_steps': sum(1 for s, k, i, t, st in rows if not any(g >= 200 for g in t)),
-        'reread_failures': sum(1 for s, k, i, t, st in rows if 11 in t),
+        'reread_failures': sum(1 for s, k, i, t, st in rows if 11 in t or 31 in t),
+        'theta_steps': sum(1 for s, k, i, t, st in rows if s.get('kind', 'theta') == 'theta'),
+        'rv_steps': sum(1 for s, k, i, t, st in rows if s.get('kind') == 'rv'),
+        'rv_steps_with_scaled_block': sum(1 for s, k, i, t, st in rows if i.get('scaled_block')),
     }
-    ctx.coverage['samples'] = [{'spec': s, 'step': k, 'tags': t} for s, k, i, t, st in rows[:5]]
+    ctx.coverage['samples'] = [{'spec': s, 'step': k, 'tags': t} for s, k, i, t, st in rows[:3]] + \
+                              [{'spec': s, 'step': k, 'tags': t} for s, k, i, t, st in rows if s.get('kind') == 'rv'][:2]
 
 
 def replay(ctx, rep):
